@@ -63,7 +63,7 @@ class Inst:
 
     def __init__(self, name, crate="core", tiers=("quick", "thorough"), unwind=None, unwindset=(), nomem=False,
                  timeout=600, mem_gb=6, expect="pass", bounds="", functions=(), stubs=(), sub="", role=None,
-                 objbits=None):
+                 objbits=None, extra=()):
         self.name = name            # pretty name, e.g. "c20::attrs_roundtrip"
         self.crate = crate
         self.tiers = tuple(tiers)
@@ -79,6 +79,7 @@ class Inst:
         self.sub = sub              # sub-claim label, e.g. "C02.a"
         self.role = role
         self.objbits = objbits
+        self.extra = tuple(extra)   # extra cbmc flags for this instance
 
 
 class Result:
@@ -350,6 +351,7 @@ def run_inst_once(inst, h, workdir, use_unwindset):
         flags[i + 1] = str(inst.objbits)
     if inst.nomem:
         flags += CBMC_NOMEM
+    flags += list(inst.extra)
     unwind = inst.unwind if inst.unwind is not None else h["meta"]["attributes"].get("unwind_value")
     if unwind is not None:
         flags += ["--unwind", str(unwind)]
